@@ -208,6 +208,20 @@ class CheckRun:
             sys.exit(2)
         sys.exit(0)
 
+def span_text(prog, span):
+    """source text at a MIR span (robust to line shifts; used as the site of a finding)"""
+    m = re.match(r'(.*?):(\d+):(\d+): (\d+):(\d+)', span or '')
+    if not m: return span or ''
+    lines = prog.src_lines(m.group(1))
+    l1, c1, l2, c2 = int(m.group(2)), int(m.group(3)), int(m.group(4)), int(m.group(5))
+    if l1 - 1 >= len(lines): return span
+    fn = ''
+    for k in range(l1 - 1, -1, -1):
+        mm = re.search(r'\bfn\s+(\w+)', lines[k])
+        if mm: fn = mm.group(1) + ': '; break
+    if l1 == l2: return fn + lines[l1 - 1][c1 - 1:c2 - 1].strip()
+    return fn + lines[l1 - 1][c1 - 1:].strip()
+
 def model_bytes(md, syms):
     """concrete bytes of a list of (int | BitVec) under a model"""
     out = []
